@@ -642,9 +642,7 @@ func registerSync(e *Engine) {
 		*st = smt.I(0)
 		if fr.p.preempt > 0 && len(fr.p.runnable(fr.p.cur)) > 0 {
 			// bounded pre-emption: after an unlock another goroutine may run first
-			if fr.p.yield() {
-				fr.p.preempt--
-			}
+			fr.p.yieldWith(func() { fr.p.preempt-- })
 		}
 		return nil
 	})
